@@ -442,18 +442,18 @@ func (c *Cluster) alertsHandler() {
 			cState, err := c.consensus.State(c.ctx)
 			if err != nil {
 				logger.Warn(err)
-				return
+				continue
 			}
 			list, err := cState.List(c.ctx)
 			if err != nil {
 				logger.Warn(err)
-				return
+				continue
 			}
 
 			distance, err := c.distances(c.ctx, alrt.Peer)
 			if err != nil {
 				logger.Warn(err)
-				return
+				continue
 			}
 
 			for _, pin := range list {
